@@ -715,15 +715,22 @@ pub fn lookup_bound(nl: u32, ns: u128) -> u128 {
     66u128.saturating_mul(p)
 }
 
-fn case_params(c: &Case) -> (u128, u128, u128) {
-    let labels = c.names.iter().map(|n| n.iter().count()).max().unwrap_or(0) as u128;
+/// `(N, R)`: most NS records / most records in any response the simulated internet can give
+fn case_params(c: &Case) -> (u128, u128) {
     let mut ns = 0usize;
-    let mut addrs = c.roots.len();
+    let mut recs = 0usize;
     for (_, _, r) in Truth::responses(c) {
         ns = ns.max(r.all().filter(|x| matches!(x.data, RD::N(_))).count());
-        addrs += r.all().filter(|x| rec_ip(x).is_some()).count();
+        recs = recs.max(r.all().count());
     }
-    (labels, ns as u128, addrs as u128)
+    (ns as u128, recs as u128)
+}
+
+/// `Pmax` of `sends_bounded`: entries of a pool = root hints, or what one NS response can yield
+pub fn pool_bound(roots: u128, n: u128, r: u128) -> u128 {
+    roots
+        .saturating_add(n.saturating_mul(r.saturating_add(2u128.saturating_mul(r).saturating_mul(n))))
+        .saturating_add(2u128.saturating_mul(r).saturating_mul(n))
 }
 
 // ------------------------------------------------------------------------------------------ exec
@@ -807,10 +814,9 @@ fn exec_res(line: &str, t: &[&str], rec: &mut Recorder) {
 
     // ---- the property's oracle, from the ground truth only
     let truth = Truth::compute(&case, true);
-    // every lookup tries each address of its pool at most once (no truncation, no busy back-off here);
-    // a pool has at most (NS records) x (address records in the internet + roots) entries
-    let (_labels, ns, addrs) = case_params(&case);
-    let bound = lookup_bound(case.nl as u32, ns).saturating_mul((ns.max(1)).saturating_mul(addrs.max(1)));
+    // `sends_bounded` (Proofs/C19.lean): sends <= Pmax(roots, N, R) * B(ns_recursion_limit, N)
+    let (ns, recs) = case_params(&case);
+    let bound = lookup_bound(case.nl as u32, ns).saturating_mul(pool_bound(case.roots.len() as u128, ns, recs));
     let mut any_send = false;
     // addresses contacted although nobody legitimately made them name servers, through the
     // foreign-owner shape of the known finding (consequences of the same root cause get the same class)
